@@ -18,3 +18,47 @@ Fixpoint wsum (w v : list Q) : Q :=
   | a :: w', x :: v' => a * x + wsum w' v'
   | _, _ => 0
   end.
+
+(* ---- write_variable_font.main: what goes into the designspace document.
+   An axis is (tag, name, default); a master's position is a list of (tag, value) as config.load
+   leaves it (sorted by tag, whatever order the axes were declared in). *)
+From Coq Require Import String.
+Definition axis := (string * string * Q)%type.
+Definition a_tag (a : axis) : string := fst (fst a).
+Definition a_name (a : axis) : string := snd (fst a).
+Definition a_default (a : axis) : Q := snd a.
+Definition position := list (string * Q).
+
+Fixpoint lookup_s {A} (k : string) (l : list (string * A)) : option A :=
+  match l with
+  | [] => None
+  | (k', v) :: r => if String.eqb k k' then Some v else lookup_s k r
+  end.
+
+(* axis_names = {a.axisTag: a.name for a in axes}; a later axis with the same tag wins, as in a dict *)
+Definition axis_names (axes : list axis) : list (string * string) :=
+  rev (map (fun a => (a_tag a, a_name a)) axes).
+
+(* location = {axis_names[p.axisTag]: p.position for p in master.position}: None = KeyError *)
+Fixpoint location (names : list (string * string)) (pos : position) : option (list (string * Q)) :=
+  match pos with
+  | [] => Some []
+  | (tag, v) :: r =>
+      match lookup_s tag names, location names r with
+      | Some n, Some rest => Some ((n, v) :: rest)
+      | _, _ => None
+      end
+  end.
+(* reading a key of the dict: the entry written last wins *)
+Definition loc_value (name : string) (loc : list (string * Q)) : option Q := lookup_s name (rev loc).
+
+(* positions of all masters on one axis: [p.position for m in masters for p in m.position if p.axisTag == tag] *)
+Definition positions_on (tag : string) (masters : list position) : list Q :=
+  flat_map (fun m => map snd (filter (fun p => String.eqb (fst p) tag) m)) masters.
+
+(* the axis descriptor: (tag, name, minimum, default, maximum); None = min() of an empty sequence *)
+Definition axis_def (a : axis) (masters : list position) : option (string * string * Q * Q * Q) :=
+  match axis_range (positions_on (a_tag a) masters) with
+  | Some (lo, hi) => Some (a_tag a, a_name a, lo, a_default a, hi)
+  | None => None
+  end.
